@@ -198,7 +198,9 @@ func refersTo(repo *repository, iter descIter, digest ociregistry.Digest) (found
 			if b == nil {
 				break
 			}
-			miter, err := manifestReferences(info.desc.MediaType, b.data)
+			// Use the media type the manifest was stored with, not the
+			// one the referring descriptor claims for it.
+			miter, err := manifestReferences(b.mediaType, b.data)
 			if err != nil {
 				retErr = err
 				return false
